@@ -212,6 +212,19 @@ func runC07(c *Ctx) {
 			if r.Chance(1, 8) {
 				name = genName(r)
 			}
+			if r.Chance(1, 12) { // the same remote file fetched twice, one transfer after the other
+				nm := hx([]byte(gen.Pick(r, []string{"notes.txt", "C:\\Users\\bob\\notes.txt", "a/b/c.bin"})))
+				c.Count("redownload")
+				for round := 0; round < 2; round++ {
+					fid := uint32(10 + round)
+					w.line(c, fmt.Sprintf("dlopen %s %d %s 64", id, fid, nm))
+					for k := 0; k < 1+r.Intn(3); k++ {
+						w.line(c, fmt.Sprintf("dlwrite %s %d %s", id, fid, hx(r.Bytes(1+r.Intn(9)))))
+					}
+					w.line(c, fmt.Sprintf("dlclose %s %d 0", id, fid))
+				}
+				continue
+			}
 			switch k := r.Intn(20); {
 			case k < 5:
 				fid := uint32(1 + r.Intn(5))
